@@ -13,29 +13,67 @@ def user_space_rejects(rep):
         raise AnalysisError('anchor: the leading-underscore check vanished from translator.py')
 
 
-def temp_bases():
-    """(file, base) of every out.var(<base>...) temporary and every literal identifier stored by
-    emitted rule code, with the scope it lives in"""
-    out = []
-    for rel in load.expression_files() + ['sourcer/translator.py']:
-        tree = load.parse(rel)
-        for fname, fn in load.functions_of(tree).items():
-            in_global = False
-            for node in ast.walk(fn):
-                if isinstance(node, ast.Call) and isinstance(node.func, ast.Attribute) and node.func.attr == 'var' \
-                        and node.args:
-                    a = node.args[0]
-                    bases = []
-                    if isinstance(a, ast.Constant) and isinstance(a.value, str):
-                        bases = [a.value]
-                    elif isinstance(a, ast.IfExp):
-                        bases = [x.value for x in (a.body, a.orelse) if isinstance(x, ast.Constant)]
-                    else:
-                        raise AnalysisError(f'{rel}:{fname}: out.var with a computed base name')
-                    scope = 'module' if (rel.endswith('regex.py') and fname.endswith('precompile')) else 'rule-function'
-                    for b in bases:
-                        out.append((rel, fname, b, scope))
-    return out
+def _strings(x):
+    if isinstance(x, str):
+        yield x
+    elif isinstance(x, (list, tuple, set)):
+        for y in x:
+            yield from _strings(y)
+    elif isinstance(x, dict):
+        for y in x.values():
+            yield from _strings(y)
+
+
+def temp_bases(tier):
+    """(where, base, scope) of every identifier the emitted code stores that the user did not choose:
+    collected from the skeletons the expression classes emit (every configuration of every class;
+    what precompile emits is module scope, the rest rule-function scope) and from the rule functions
+    and module bodies of the emitted route modules."""
+    from sva import skeleton as SK
+    import re
+    out = {}
+    w = SK.World()
+    nsk = 0
+    for K in sorted(w.classes()):
+        if K in ('Call', 'Class', 'KeywordArg', 'Rule'):
+            continue            # covered through the route modules below
+        for cfg in SK.enumerate_configs(w, K, tier):
+            try:
+                b = w.build(cfg)
+            except SK.Rejected:
+                continue
+            if b.tree is None:
+                continue
+            nsk += 1
+            user = set(_strings(cfg.args)) | set(_strings(cfg.kwargs)) | set(_strings(cfg.post))
+            try:
+                pre = {x.id for x in ast.walk(ast.parse(b.pre_src)) if isinstance(x, ast.Name)
+                       and isinstance(x.ctx, ast.Store)}
+            except SyntaxError:
+                pre = set()
+            for x in ast.walk(b.tree):
+                if isinstance(x, ast.Name) and isinstance(x.ctx, ast.Store) and x.id not in user:
+                    scope = 'module' if x.id in pre else 'rule-function'
+                    base = re.sub(r'\d+$', '', x.id)
+                    out.setdefault((base, scope), f'sourcer/expressions: {K}._compile'
+                                   if scope != 'module' else f'sourcer/expressions: {K}.precompile')
+    R, mods = routes.emitted_modules()
+    for m in mods:
+        if not isinstance(m, modroute.Emitted):
+            continue
+        user = set()
+        for o in routes.walk_objs(getattr(m, 'body', []) or []):
+            for k in ('name', 'names', 'params'):
+                user |= set(_strings(o.d.get(k)))
+        for fname, fn in m.functions.items():
+            if not fname.startswith(('_try_', '_parse_function')):
+                continue
+            params = {a.arg for a in fn.args.args + fn.args.kwonlyargs}
+            for x in ast.walk(fn):
+                if isinstance(x, ast.Name) and isinstance(x.ctx, ast.Store) and x.id not in user | params:
+                    base = re.sub(r'\d+$', '', x.id)
+                    out.setdefault((base, 'rule-function'), f'emitted module of route {m.label}: {fname}')
+    return [(where, base, scope) for (base, scope), where in sorted(out.items())], nsk
 
 
 def run(rep, tier):
@@ -59,7 +97,10 @@ def run(rep, tier):
         rep.rule(rid, txt)
     user_space_rejects(rep)
     seen = set()
-    for rel, fname, base, scope in temp_bases():
+    temps, nsk = temp_bases(tier)
+    rep.count('skeletons scanned for stored identifiers', nsk)
+    rep.floor('skeletons scanned for stored identifiers', nsk, 1000)
+    for where, base, scope in temps:
         rep.count('temporary allocation sites examined')
         if base.startswith('_'):
             rep.oblige(True)
@@ -70,9 +111,8 @@ def run(rep, tier):
         rep.oblige(False)
         what = ('a rule, class' if scope == 'module' else 'a let variable, class field or parameter')
         rep.add(Finding('NAME-temporary', scope, base,
-                        f'the generator allocates temporaries `{base}<n>` in the {scope} scope ({rel}:{fname}); '
-                        f'{what} named e.g. `{base}1` is overwritten by / overwrites it',
-                        f'{rel}:{fname}'))
+                        f'the generator allocates temporaries `{base}<n>` in the {scope} scope ({where}); '
+                        f'{what} named e.g. `{base}1` is overwritten by / overwrites it', where))
     rep.floor('temporary allocation sites examined', rep.instances.get('temporary allocation sites examined', 0), 30)
     # (ii) bare-name reads in emitted modules
     R, mods = routes.emitted_modules()
